@@ -101,7 +101,8 @@ pub fn case_hist(bytes: &[u8], _s: &[u8], ctx: &mut Ctx) -> Result<(), Fail> {
 
 // ---------------------------------------------------------------- (b) matcher precedence
 
-const FRAGS: [&str; 6] = ["http", "_req", "db", "_lat", "x", "_total"];
+// (fragments with and without their leading underscore: "httpreq" ends with "req" but not with "_req")
+const FRAGS: [&str; 9] = ["http", "_req", "db", "_lat", "x", "_total", "req", "lat", "total"];
 
 #[derive(Debug)]
 struct MatchCase {
